@@ -16,9 +16,11 @@ import (
 	"unsafe"
 
 	"github.com/BondMachineHQ/BondMachine/pkg/basm"
+	"github.com/BondMachineHQ/BondMachine/pkg/bmconfig"
 	"github.com/BondMachineHQ/BondMachine/pkg/bminfo"
 	"github.com/BondMachineHQ/BondMachine/pkg/bmreqs"
 	"github.com/BondMachineHQ/BondMachine/pkg/bondmachine"
+	"github.com/BondMachineHQ/BondMachine/pkg/procbuilder"
 	"verifharness/gen"
 )
 
@@ -77,16 +79,47 @@ type asmError struct {
 
 func (e *asmError) Error() string { return e.Phase + ": " + e.Err.Error() }
 
+// Configurations of the assembler (the switches of cmd/basm that change what a source is turned into).
+const (
+	cfgDefault = "default" // no switch
+	cfgNoDyn   = "nodyn"   // -disable-dynamical-matching
+	cfgMinWord = "minword" // -chooser-min-word-size
+	cfgMinSame = "minsame" // -chooser-min-word-size -chooser-force-same-name
+)
+
+// The opcode registry is process-wide and grows when a dynamical instruction (rsets5, …) is created
+// (procbuilder.EventuallyCreateInstruction appends to Allopcodes; BasmInstanceInit derives the matcher
+// list of every later instance from it). cmd/basm assembles one program per process, so every case
+// starts from the registry of a fresh process.
+var pristineOpcodes = len(procbuilder.Allopcodes)
+
+func resetRegistries() {
+	if len(procbuilder.Allopcodes) > pristineOpcodes {
+		procbuilder.Allopcodes = procbuilder.Allopcodes[:pristineOpcodes:pristineOpcodes]
+	}
+}
+
 // assemble replicates the CLI sequence. A panic of the assembler is returned as an
 // asmError with phase "<phase>-panic" (the caller decides whether the source was in
 // the documented domain).
-func assemble(src string) (bm *bondmachine.Bondmachine, aerr *asmError) {
+func assemble(src string, cfg string) (bm *bondmachine.Bondmachine, aerr *asmError) {
 	restore := quiet()
 	defer restore()
+	resetRegistries()
+	defer resetRegistries()
 	bi := new(basm.BasmInstance)
 	bi.BMinfo = new(bminfo.BMinfo)
 	bi.BasmInstanceInit(nil)
 	defer closeReqs(bi)
+	switch cfg {
+	case cfgNoDyn:
+		bi.Activate(bmconfig.DisableDynamicalMatching)
+	case cfgMinWord:
+		bi.Activate(bmconfig.ChooserMinWordSize)
+	case cfgMinSame:
+		bi.Activate(bmconfig.ChooserMinWordSize)
+		bi.Activate(bmconfig.ChooserForceSameName)
+	}
 	phase := phParse
 	defer func() {
 		if r := recover(); r != nil {
